@@ -16,7 +16,7 @@ PROP = "C14"
 LEVEL = "exploration"
 EXHAUSTIVE = False
 TIERS = {
-    "quick": {"runs": 384, "budget_s": 150, "chunk": 2, "max_shrink": 3, "shrink_each_s": 20, "shrink_budget_s": 60},
+    "quick": {"runs": 320, "budget_s": 150, "chunk": 2, "max_shrink": 3, "shrink_each_s": 20, "shrink_budget_s": 60},
     "thorough": {"runs": 14000, "budget_s": 3300, "chunk": 4, "max_shrink": 6, "shrink_each_s": 40, "shrink_budget_s": 300},
 }
 HIST_PER_WORLD = {"quick": 10, "thorough": 12}
@@ -121,7 +121,8 @@ def make_world(rng):
         items = _window_items(rng, dec, rng.randrange(2, 5), substr=True)
         if not items:
             continue
-        for variant, cfg in (("absent", None), ("plugins_list", {"plugins": ["strip_nops", "tag_calls"]}), ("plugins_map", {"plugins": {"strip_nops": True}, "mnemonics-full-match": True}),
+        for variant, cfg in (("absent", None), ("unknown_keys", {"strict": True, "cache": True, "ignore-case": True, "timeout": 5, "verbose": True}),
+                             ("unknown_keys_off", {"strict": False, "cache": False, "ignore-case": False}), ("plugins_list", {"plugins": ["strip_nops", "tag_calls"]}), ("plugins_map", {"plugins": {"strip_nops": True}, "mnemonics-full-match": True}),
                              ("ff", {"mnemonics-full-match": False, "operands-full-match": False}),
                              ("tf", {"mnemonics-full-match": True}), ("ft", {"operands-full-match": True}),
                              ("tt", {"mnemonics-full-match": True, "operands-full-match": True})):
@@ -159,6 +160,15 @@ def make_world(rng):
             add("range", f"r{ri}" if r else "absent", d, li)
         # a rule that names the raw target: only matches while nothing rewrites the operand
         add("range", "rawtarget", {"pattern": [{mn: ["%x" % int(br[0][2][0], 16)]}]}, li)
+        # branch mnemonics that are NOT in the product's jump list (ja/jb/js ...): tagging must not happen for them,
+        # whatever range is configured, before or after other rules said `valid_addr` about them
+        other = [(a, m, ops) for (a, m, ops) in dec if m in ("ja", "jb", "js", "jae", "jbe") and ops and rules._is_hexstr(ops[0])]
+        if other:
+            (_a, om, oops) = rng.choice(other)
+            allr = {"valid_addr_range": {"min": "0x0", "max": "0xffffff"}}
+            add("range", "unlisted_valid_addr", {"config": allr, "pattern": [{om: ["valid_addr"]}]}, li)
+            add("range", "unlisted_rawtarget_with_range", {"config": allr, "pattern": [{om: ["%x" % int(oops[0], 16)]}]}, li)
+            add("range", "unlisted_rawtarget", {"pattern": [{om: ["%x" % int(oops[0], 16)]}]}, li)
 
     # ---- sections / style families (binary route)
     for b in binaries:
@@ -533,12 +543,12 @@ def _cmp_outcome(oc):
 NOFILE_HEADROOM = 24  # descriptors a history (and each reference) may have open beyond what the interpreter already holds
 
 
-def check_history(files, ops, runner, seed=0, want_events=False):
+def check_history(files, ops, runner, seed=0, want_events=False, log_level=None):
     """Run the history in one process, then compare every operation with its pristine reference.
 
     Returns (violations, info)."""
     runner.reset(files) if runner.state else runner.materialise(files)
-    res = runner.run(ops, seed, {"signatures": True, "nofile_headroom": NOFILE_HEADROOM})
+    res = runner.run(ops, seed, {"signatures": True, "nofile_headroom": NOFILE_HEADROOM, "log_level": log_level})
     # replay the file state for the references
     runner.reset(files)
     viols = []
@@ -551,7 +561,7 @@ def check_history(files, ops, runner, seed=0, want_events=False):
             runner.apply_write(op)
             prev_tag = op.get("_tag", "write")
             continue
-        ref_oc, _fired, _ev = runner.reference(op, seed, {"nofile_headroom": NOFILE_HEADROOM})
+        ref_oc, _fired, _ev = runner.reference(op, seed, {"nofile_headroom": NOFILE_HEADROOM})  # a pristine process: default logging
         got = res["outcomes"][k]
         checked += 1
         sig = res["signatures"][k] if res.get("signatures") else "?"
@@ -618,7 +628,9 @@ def run_one(index, seed, runner, tier, opts):
     for h in range(nh):
         with_faults = (h % 2 == 1)
         ops = make_history(rng, world, with_faults)
-        viols, info = check_history(files, ops, runner, seed)
+        # the embedding application may have switched the package logger to DEBUG / INFO: results must not care
+        log_level = ("DEBUG" if h % 5 == 3 else "INFO") if h % 5 in (3, 4) else None
+        viols, info = check_history(files, ops, runner, seed, log_level=log_level)
         counters["histories"] += 1
         counters["checked_ops"] += info["checked"]
         counters["seam_escapes"] += len(info["escapes"])
@@ -640,7 +652,7 @@ def run_one(index, seed, runner, tier, opts):
         vtime += info["vtime"]
         for v in viols[:1]:
             k = v["index"]
-            case = {"files": {p: util.enc_content(c) for p, c in files.items()}, "ops": copy.deepcopy(ops[:k + 1]), "extra": {"history": h}}
+            case = {"files": {p: util.enc_content(c) for p, c in files.items()}, "ops": copy.deepcopy(ops[:k + 1]), "extra": {"history": h, "log_level": log_level}}
             violations.append({"case": case, "violation": v})
         if sample is None and h == 1:
             sample = {"run": index, "seed": seed, "history": [_op_brief(o) for o in ops], "n_rules": len(world[1]), "inputs": world[2] + world[3]}
@@ -660,6 +672,6 @@ def _op_brief(o):
 
 def evaluate(case, runner):
     runner.state = {}
-    viols, _info = check_history(case["files"], case["ops"], runner)
+    viols, _info = check_history(case["files"], case["ops"], runner, log_level=(case.get("extra") or {}).get("log_level"))
     # the case is cut so that the violating operation is the last one
     return [v for v in viols if v["index"] == len(case["ops"]) - 1]
